@@ -78,6 +78,7 @@ import fam_iter
 
 
 def c08(run, ctx):
+    fam_iter.dispatch_rule(run, ctx)
     fam_enc.byte_class_tables(run, ctx)
     fam_vm.run_returns(run, ctx)
     fam_vm.pos_uses(run, ctx)
@@ -240,6 +241,8 @@ from facts import strip_generics as _sg
 
 
 def c01(run, ctx):
+    fam_flow.option_consumers(run, ctx)
+    fam_iter.dispatch_rule(run, ctx)
     fam_enc.byte_class_tables(run, ctx)
     fam_vm.state_methods(run, ctx)
     fam_vm.backtrack_cut(run, ctx)
@@ -270,6 +273,8 @@ def c01(run, ctx):
 
 
 def c02(run, ctx):
+    fam_iter.dispatch_rule(run, ctx)
+    fam_tmpl.compile_lookaround_dispatch(run, ctx)
     fam_iter.iterator_impls(run, ctx, only=("SubCaptureMatches",))
     fam_enc.slot_operands(run, ctx)
     fam_enc.slot_rule(run, ctx)
@@ -285,6 +290,7 @@ def c02(run, ctx):
 
 
 def c03(run, ctx):
+    fam_iter.dispatch_rule(run, ctx)
     fam_enc.byte_class_tables(run, ctx)
     fam_flow.option_consumers(run, ctx)
     fam_tmpl.literal_fast_path(run, ctx)
@@ -372,6 +378,11 @@ def c05(run, ctx):
     fam_enc.any_arms_rule(run, ctx)
     fam_enc.byte_class_tables(run, ctx)
     fam_vm.backtrack_cut(run, ctx)
+    fam_tmpl.builder_helpers(run, ctx)
+    # (the explicit-stack imbalance F7 makes a conditional commit to a wrong branch count; it cannot make an
+    # offset invalid: a stale count never exceeds the number of live branches, see DESIGN 12.4)
+    fam_tmpl.compile_conditional(run, ctx, balance=False)
+    fam_expand.writers_agree(run, ctx)
 
 
 def c06(run, ctx):
@@ -383,6 +394,7 @@ def c06(run, ctx):
     fam_taint.byte_steps(run, ctx)
     fam_taint.error_mapping(run, ctx)
     fam_enc.printable_rule(run, ctx)
+    fam_tmpl.compile_repeat(run, ctx)
 
 
 def c07(run, ctx):
